@@ -646,8 +646,9 @@ class ExecuteStep(BaseStep):
             for tag in list(inputs_map.keys()):
                 if len(inputs_map[tag]) == len(input_ports):
                     inputs = inputs_map.pop(tag)
-                    # Set status to fireable
-                    await self._set_status(Status.FIREABLE)
+                    # Set status to fireable (a step terminated in the meantime keeps its final status)
+                    if not self.terminated:
+                        await self._set_status(Status.FIREABLE)
                     # Run job
                     unfinished.add(
                         asyncio.create_task(
